@@ -93,10 +93,8 @@ theorem longest_none {ns : List Str} {s : Str} (h : longest ns s = none) : ∀ m
     rw [longest] at h
     cases hl : longest as s with
     | some b =>
-      rw [hl] at h
-      by_cases hc : (pre a s && decide (blen b < blen a)) = true
-      · simp [if_pos hc] at h
-      · simp [if_neg hc] at h
+      simp only [hl] at h
+      split at h <;> simp at h
     | none =>
       rw [hl] at h
       cases hp : pre a s with
